@@ -208,3 +208,8 @@ mod test {
         assert_eq!(r.limit(addr2.clone(), n, &t2, LocalTime::from_secs(1)), true);
     }
 }
+
+// Verification hook: only the Kani compiler sets `cfg(kani)`; the harnesses live in /verif.
+#[cfg(kani)]
+#[path = "/verif/harness/incrate/limiter.rs"]
+mod verif_kani;
